@@ -231,7 +231,7 @@ func goExpr(x ast.Expr, resultNames []string) (string, bool) {
 					return &ast.ParenExpr{X: &ast.BinaryExpr{X: &ast.UnaryExpr{Op: token.NOT, X: &ast.ParenExpr{X: conv(n.Args[0])}}, Op: token.LOR, Y: &ast.ParenExpr{X: conv(n.Args[1])}}}
 				case "iff":
 					return &ast.ParenExpr{X: &ast.BinaryExpr{X: &ast.ParenExpr{X: conv(n.Args[0])}, Op: token.EQL, Y: &ast.ParenExpr{X: conv(n.Args[1])}}}
-				case "old", "entry", "libcall", "notnil", "mapvalsnonnil", "dynres", "call", "mkobj", "box", "rscur", "rsin", "rslen", "content", "scat", "srune", "fresh", "ovf", "forall", "exists", "forallint", "istype", "typeis", "smt", "ghost", "ite", "unboxF", "unboxS", "unboxB", "unboxI", "i2f":
+				case "old", "entry", "libcall", "notnil", "mapvalsnonnil", "mapvalstyped", "nth", "dynres", "call", "mkobj", "box", "rscur", "rsin", "rslen", "content", "scat", "srune", "fresh", "ovf", "forall", "exists", "forallint", "istype", "typeis", "smt", "ghost", "ite", "unboxF", "unboxS", "unboxB", "unboxI", "i2f":
 					ok = false
 					return x
 				}
